@@ -10,7 +10,8 @@ from proj import Project
 
 ASSUMPTIONS = [
     "timestamps are opaque canonical tokens digits.dddd (floats are never compared); pids are canonical decimal tokens",
-    "replay model covers two directories (record texts are spellings relative to the directory of the log's target, roots are spellings relative to the project directory; names stay inside the project, no absolute record texts, no symlinks), --details, no --debug-locks; the --follow loop is exercised on the implementation only (live monitor)",
+    "replay model covers two directories (record texts are spellings relative to the directory of the log's target, roots are spellings relative to the project directory; names stay inside the project, no absolute record texts, no symlinks), --details, no --debug-locks",
+    "the --follow loop is modelled by LogFollow (one target, arbitrary interleaving with its builder); every follower session of every live build is replayed through the acceptor LogFollow.Obs (hooks log.enter/open/check/stop, job.logfile, lock events): reads and appends are not traced, the conditions of the completeness theorem are",
     "lines are compared modulo trailing whitespace (clean_line strips it by design)",
     "a stderr line that parses as a record is consumed as a record (known finding inbandRecordsInStderr); generated script output avoids the @@REDO: prefix except in the dedicated scenario",
 ]
@@ -308,8 +309,14 @@ def live_level(ctx, rng, viol):
                     pr.write(n + ".do", "\n".join(body) + "\necho out-%s\n" % n)
                     expect[n] = exp
                 pr.write("all.do", "redo-ifchange " + " ".join(names) + "\n")
-                rc, out, err = pr.run(["redo", "-j%d" % j, "--no-pretty", "--no-color", "--no-status", "all"], timeout=120)
+                rc, out, err, trace = traced_run(pr, ["redo", "-j%d" % j, "--no-pretty", "--no-color", "--no-status", "all"], timeout=120)
                 stats["builds"] += 1
+                nsess, flags = replay_follow(trace)
+                stats["follow_sessions"] = stats.get("follow_sessions", 0) + nsess
+                if flags:
+                    p = write_replay("C18", "follow", dict(kind="trace-rejected", acceptor="LogFollow.Obs.ostep (RedoModel/LogFollow.lean)", j=j, flags=[(f[0], f[1], f[2]) for f in flags]))
+                    viol.append(Violation("C18", p, "a follower session at -j%d is rejected by the LogFollow acceptor: %s (target id %d)" % (j, flags[0][3], flags[0][0])))
+                    return stats, samples
                 live = attribute(parse_out(err))
                 rc2, out2, err2 = pr.run(["redo-log", "--no-pretty", "--no-color", "--no-status", "-r", "all"])
                 rep = attribute(parse_out(out2))
@@ -327,6 +334,151 @@ def live_level(ctx, rng, viol):
             finally:
                 pr.destroy()
     return stats, samples
+
+
+LOG_LOCK_MAGIC = 0x10000000
+STALE_FLAGS = ("staleOpen", "wrongInstance")
+
+
+def follow_sessions(trace):
+    """From a hook trace: for every session of a `redo-log --follow` process on a target (log.enter … log.stop), the
+    observable events of that session together with the events of the target's builders (lock taken / log instance
+    created / lock released), in trace order — the input of the Lean acceptor LogFollow.Obs (verb logfollow-replay).
+    The follower's observation of the lock is placed where its own lock probe is logged (right after the fcntl, while
+    it still holds the probe lock), not where log.enter/log.check is logged: the trace order is then consistent with the
+    kernel's lock order."""
+    followers = set(pid for pid, ts, name, a in trace if name.startswith("log."))
+    sessions = {}          # (pid, fid) -> list of event strings (placeholders are lists)
+    per_fid = {}           # fid -> list of (index in trace, event) for builder events
+    open_sess = {}         # (pid, fid) -> dict(events=[...], pending=None)
+    done = []
+    builder_ev = []        # (fid, ev) in trace order, with positions
+    out = []
+    # pass 1: one merged stream per fid
+    streams = {}
+    for pid, ts, name, a in trace:
+        if not a or not a[0].lstrip("-").isdigit():
+            continue
+        fid = int(a[0])
+        if not (0 < fid < LOG_LOCK_MAGIC):
+            continue
+        st = streams.setdefault(fid, [])
+        if pid in followers:
+            if name == "lock.try":
+                st.append(["probe", pid, a[1] == "1"])
+            elif name == "log.enter":
+                st.append(["enter", pid, a[1] == "1"])
+            elif name == "log.check":
+                st.append(["check", pid, a[1] == "1"])
+            elif name == "log.open":
+                st.append(["open", pid, int(a[1])])
+            elif name == "log.stop":
+                st.append(["stop", pid])
+        else:
+            if name == "lock.try" and a[1] == "1":
+                st.append(["lo"])
+            elif name == "lock.wait.end":
+                st.append(["lo"])
+            elif name == "lock.unlock":
+                st.append(["ul"])
+            elif name == "job.logfile":
+                st.append(["cr", int(a[1])])
+    # pass 2: per follower pid and fid, move each observation to the position of the probe that produced it
+    res = []
+    for fid, st in streams.items():
+        fpids = sorted(set(e[1] for e in st if e[0] in ("enter", "check", "open", "stop", "probe")))
+        for fp in fpids:
+            evs = []
+            last_probe = None
+            active = False
+            for e in st:
+                k = e[0]
+                if k in ("lo", "ul"):
+                    evs.append(k)
+                elif k == "cr":
+                    evs.append("cr,%d" % e[1])
+                elif e[1] != fp:
+                    continue
+                elif k == "probe":
+                    evs.append(None); last_probe = len(evs) - 1
+                elif k in ("enter", "check"):
+                    txt = "%s,%d" % ("en" if k == "enter" else "ck", 1 if e[2] else 0)
+                    if last_probe is not None:
+                        evs[last_probe] = txt; last_probe = None
+                    else:
+                        evs.append(txt)
+                    active = True
+                elif k == "open":
+                    evs.append("op,%d" % e[2])
+                elif k == "stop":
+                    evs.append("st"); active = False
+            evs = [x for x in evs if x is not None]
+            if any(x.startswith("en,") for x in evs):
+                res.append((fp, fid, evs, active))
+    return res
+
+
+def replay_follow(trace):
+    """Replay every follower session of the trace; returns (sessions, flags) with flags = [(fid, flag, events)]."""
+    sess = follow_sessions(trace)
+    flags = []
+    if not sess:
+        return 0, flags
+    answers = run_lines(MODEL, ["logfollow-replay %s" % (";".join(evs) or "-") for _, _, evs, _ in sess])
+    for (fp, fid, evs, active), ans in zip(sess, answers):
+        if ans.startswith("flag "):
+            flags.append((fid, ans.split()[1], evs, ans))
+        elif not ans.startswith("ok"):
+            flags.append((fid, "bad-answer", evs, ans))
+    return len(sess), flags
+
+
+def traced_run(pr, argv, timeout=120, extra_env=None):
+    import sched
+    tr = pr.path(".verif-trace")
+    if os.path.exists(tr):
+        os.unlink(tr)
+    env = {"REDO_VERIF_TRACE": tr}
+    if extra_env:
+        env.update(extra_env)
+    rc, out, err = pr.run(argv, env=env, timeout=timeout)
+    return rc, out, err, sched.parse_trace(tr)
+
+
+def stale_instance_scenario(ctx, viol, known_hit):
+    """A requester finds target c locked while the lock holder is still rebuilding c's checksummed dependency out of
+    band (no new log instance of c exists yet): the follower, sent into c's log by the `locked` record, opens the log
+    of c's PREVIOUS build.  Model: LogFollow hypothesis (a) (`C18.stale_open_loses_lines`)."""
+    pr = Project()
+    try:
+        pr.write("m.do", "redo-ifchange ver\nsleep 1\ncat ver\ncat ver | redo-stamp\n")
+        pr.write("c.do", "redo-ifchange m\necho \"c-run $(cat m)\" >&2\ncat m\n")
+        pr.write("q.do", "redo-ifchange ver2\nsleep 0.3\nredo-ifchange c\necho q-line >&2\n")
+        pr.write("p.do", "redo-ifchange ver2\nredo-ifchange c\necho p-line >&2\n")
+        pr.write("all.do", "redo-ifchange q p\n")
+        pr.write("ver", "1\n"); pr.write("ver2", "1\n")
+        rc, out, err = pr.run(["redo", "-j3", "--no-pretty", "--no-color", "--no-status", "all"], timeout=60)
+        pr.write("ver", "2\n"); pr.write("ver2", "2\n")
+        rc, out, err, trace = traced_run(pr, ["redo", "-j3", "--no-pretty", "--no-color", "--no-status", "all"], timeout=60)
+        live = attribute(parse_out(err)).get("c", [])
+        nsess, flags = replay_follow(trace)
+        stale_flag = [f for f in flags if f[1] in STALE_FLAGS]
+        other = [f for f in flags if f[1] not in STALE_FLAGS]
+        lost = live != ["c-run 2"]
+        if other:
+            p = write_replay("C18", "follow-oob-flag", dict(kind="trace-replay", flags=[(f[0], f[1], f[2]) for f in other], stderr=err[-1500:]))
+            viol.append(Violation("C18", p, "follower session rejected by the LogFollow acceptor: %s" % other[0][3]))
+        elif lost or stale_flag:
+            kf = [k for k in known_findings("C18") if k.get("id") == "stale-log-instance-while-locked" and k.get("status") == "known"]
+            what = "live output of `redo -j3 all` shows %r under c instead of ['c-run 2'] (q finds c locked while p rebuilds c's checksummed dependency m out of band; the follower opens the log instance of c's previous build; acceptor flag: %s)" % (live, stale_flag[0][1] if stale_flag else "none")
+            if kf and lost and stale_flag:
+                known_hit.append(what)
+            else:
+                p = write_replay("C18", "follow-oob", dict(kind="impl-monitor", live=live, flags=[(f[0], f[1], f[2]) for f in flags], stderr=err[-1500:]))
+                viol.append(Violation("C18", p, what))
+        return dict(sessions=nsess, flags=[f[1] for f in flags], live_c=live)
+    finally:
+        pr.destroy()
 
 
 def inband_scenario(ctx, viol, known_hit):
@@ -443,6 +595,9 @@ def run(ctx):
     known_hit = []
     if not viol:
         inband_scenario(ctx, viol, known_hit)
+    s4 = {}
+    if not viol:
+        s4 = stale_instance_scenario(ctx, viol, known_hit) or {}
     if not viol:
         fragments_scenario(ctx, viol)
     if not viol:
@@ -454,4 +609,4 @@ def run(ctx):
                 rule="record-shaped and malformed lines from a seeded grammar (non-trivial = accepted by the parser); synthetic 6-target log forests in two directories (t0 t1 t2 sub/t3 sub/t4 sub/t5; records do/unchanged/waiting/done/other whose names are random spellings relative to the log's own directory — t1, ./t1, sub/../t1, ../sub/t4, sub//t3, sub/./t3 …; look-alikes, missing files, cycles; roots through random spellings too) replayed by the real redo-log -r with and without -u (non-trivial = replay without error); live builds of random graphs at several -j with numbered/partial/70 kB/trailing-whitespace lines",
                 samples=smp1 + smp2 + smp3, disagreements_checked=s1["requests"] + s2.get("replays", 0),
                 traces_validated_against_impl=s2.get("replays", 0), known_hit=known_hit,
-                distribution=dict(record=s1, replay=s2, live=s3))
+                distribution=dict(record=s1, replay=s2, live=s3, follow_oob_scenario=s4))
